@@ -27,11 +27,15 @@ class SelShim:
 
 
 class TimeShim:
+    """deterministic clock: every reading advances it by `tick` seconds (a harness may set tick so that a caller's timeout
+    is, or is not, used up between two readings)"""
+
     def __init__(self):
         self.t = 0.0
+        self.tick = 0.001
 
     def perf_counter(self):
-        self.t += 0.001
+        self.t += self.tick
         return self.t
 
     def sleep(self, s):
